@@ -6,7 +6,7 @@ import XrsVerif.Model.Proximity
   computes `targetTest` (the test on numbers), and `targetTest` is the model's `Prox.isTargetVal` under any
   reading `toVal : F → Prox.Val` of the numbers that respects `==`, `!= 0` and `isfinite`.
 -/
-namespace XrsVerif.IL
+namespace XrsVerif.IL.Px
 open XrsVerif
 variable {F : Type} [Fl F]
 set_option linter.unusedSectionVars false
@@ -96,4 +96,4 @@ theorem targetTest_model (toVal : F → Prox.Val) (h : ValReading toVal) (x : F)
     simp only [h1, if_false, h2, Bool.false_eq_true, List.any_map]
     congr 1; funext v; simp [h.eq]
 
-end XrsVerif.IL
+end XrsVerif.IL.Px
